@@ -158,6 +158,8 @@ def dim_of(e):
 
 def dimension_check(ev, expr, unit_expr, what, node):
     ev.dim_checks += 1
+    if sp.sympify(expr) == 0:
+        return None       # a zero quantity carries no unit in the term algebra
     de, du = dim_of(sp.sympify(expr)), dim_of(sp.sympify(unit_expr))
     if de is not None and du is not None:
         if de == du:
@@ -221,6 +223,13 @@ def broadcast(ev, a: Num, b: Num):
     bexpr = b.expr
     shape, axes = [], []
     for da, db, ia, ib in zip(sa, sb, xa, xb):
+        if da != 1 and db != 1 and da != db:
+            try:
+                differs = sp.simplify(da - db) != 0
+            except Exception:
+                differs = True
+            if differs:
+                ev.trace.append(("broadcast-mismatch", str(a.shape), str(b.shape)))
         if da == 1 and db != 1:
             shape.append(db)
             axes.append(ib)
@@ -628,6 +637,8 @@ def val_getattr(ev, obj, name, fr, node):
             return Num(len(obj.items))
         if name in ("real", "imag"):
             return obj.map(lambda x: num_getattr(ev, x, name, fr, node))
+        if name == "isscalar":
+            return BoolV(False)
         return BoundBuiltin(obj, name)
     if isinstance(obj, SliceV):
         if name in ("start", "stop", "step"):
@@ -923,6 +934,8 @@ def num_method(ev, x: Num, name, args, kwargs, fr, node):
 def nd_method(ev, x: NdArr, name, args, kwargs, fr, node):
     if name == "astype":
         return x
+    if name in ("to", "to_value"):
+        return x.map(lambda e: num_method(ev, e, name, args, kwargs, fr, node))
     if name == "round":
         return x.map(lambda e: num_method(ev, e, "round", [], {}, fr, node))
     if name in ("copy", "conj"):
@@ -1328,6 +1341,15 @@ def h_fftfreq(ev, args, kwargs, fr, node, backend=None):
     return Num(kb / (n * d.expr), kind=kind, shape=(n,), axes=(kb,), backend=backend)
 
 
+def h_rfftfreq(ev, args, kwargs, fr, node, backend=None):
+    n = args[0].expr
+    d = args[1] if len(args) > 1 else kwargs.get("d", Num(1))
+    kb = sp.Symbol("krbin", integer=True, nonnegative=True)
+    m = sp.floor(n / 2) + 1
+    ev.index_len[kb] = m
+    return Num(kb / (n * d.expr), kind="quantity" if d.kind == "quantity" else "array", shape=(m,), axes=(kb,), backend=backend)
+
+
 def h_zeros(ev, args, kwargs, fr, node, fill=0):
     shp = args[0]
     if isinstance(shp, TupleV):
@@ -1455,9 +1477,16 @@ def _fft_like(fname):
         ax = axis.expr if isinstance(axis, Num) else NONE_S
         extra = [] if isinstance(n, NoneV) else [n.expr]
         shape = x.shape
-        if shape is not None and extra and isinstance(axis, Num) and axis.expr.is_number:
+        if shape is not None and isinstance(axis, Num) and axis.expr.is_number:
             shape = list(shape)
-            shape[int(axis.expr)] = n.expr
+            k = int(axis.expr)
+            cur = n.expr if extra else shape[k]
+            if fname in ("FFT_rfft",):
+                shape[k] = sp.floor(cur / 2) + 1
+            elif fname in ("IFFT_irfft",):
+                shape[k] = n.expr if extra else 2 * (shape[k] - 1)
+            elif extra:
+                shape[k] = n.expr
         return Num(F[fname](x.expr, ax, *extra), kind=x.kind if x.kind != "number" else "array", shape=shape,
                    backend=x.backend, tag=x.tag, dtype=x.dtype)
     return h
@@ -1707,7 +1736,8 @@ EXT = {
     "numpy.min": _minmax(sp.Min), "numpy.max": _minmax(sp.Max), "numpy.amin": _minmax(sp.Min),
     "numpy.amax": _minmax(sp.Max), "numpy.minimum": _minmax(sp.Min), "numpy.maximum": _minmax(sp.Max),
     "numpy.arange": h_arange, "dask.array.arange": lambda ev, a, k, fr, n: h_arange(ev, a, k, fr, n, backend="dask"),
-    "numpy.fft.fftfreq": h_fftfreq,
+    "numpy.fft.fftfreq": h_fftfreq, "numpy.fft.rfftfreq": h_rfftfreq,
+    "dask.array.fft.rfftfreq": lambda ev, a, k, fr, n: h_rfftfreq(ev, a, k, fr, n, backend="dask"),
     "dask.array.fft.fftfreq": lambda ev, a, k, fr, n: h_fftfreq(ev, a, k, fr, n, backend="dask"),
     "numpy.zeros": h_zeros, "numpy.ones": lambda ev, a, k, fr, n: h_zeros(ev, a, k, fr, n, fill=1),
     "numpy.array": h_array, "numpy.asarray": h_array, "numpy.asanyarray": h_array,
